@@ -331,6 +331,11 @@ type frag struct {
 	// true and, after it, expressions are mapped through exprMap2 (post-state)
 	loopSkip bool
 	exprMap2 map[string]string
+	// loopBody: the function must consist of ONE top-level loop
+	// "for i := 0; i < len(x); i++" plus statements of the skip list; what is
+	// translated is the body of that loop (one iteration): TRet = the
+	// iteration ends without effect, TCut k = it reaches statement k
+	loopBody bool
 }
 
 type tr struct {
@@ -339,6 +344,7 @@ type tr struct {
 	fd     *ast.FuncDecl
 	cutIDs map[ast.Node]int
 	cutSrc []string
+	cutTail map[int]string
 }
 
 type exprFail struct{ msg string }
@@ -518,6 +524,15 @@ func (t *tr) varlists() string {
 
 func (t *tr) skipped(s ast.Stmt) bool {
 	txt := src(s)
+	// leading comment lines printed with the statement do not count
+	for strings.HasPrefix(strings.TrimSpace(txt), "//") {
+		if i := strings.Index(txt, "\n"); i >= 0 {
+			txt = txt[i+1:]
+		} else {
+			txt = ""
+		}
+	}
+	txt = strings.TrimSpace(txt)
 	for _, k := range t.f.skip {
 		if txt == k {
 			return true
@@ -562,7 +577,18 @@ func (t *tr) stmts(list []ast.Stmt, k func() string) string {
 	if t.f.ret != "tres" {
 		die("%s (%s): unsupported statement %q", t.f.coq, t.f.fn, src(s))
 	}
-	return t.cut(s)
+	r := t.cut(s)
+	// what the code goes on to do from this cut point to the end of the
+	// enclosing block (pinned as text for loop-body fragments)
+	if t.cutTail == nil {
+		t.cutTail = map[int]string{}
+	}
+	var parts []string
+	for _, q := range list {
+		parts = append(parts, strings.Join(strings.Fields(src(q)), " "))
+	}
+	t.cutTail[t.cutIDs[s]] = strings.Join(parts, "; ")
+	return r
 }
 
 func (t *tr) cut(s ast.Node) string {
@@ -823,10 +849,38 @@ func translate(p *pkgInfo, f *frag) string {
 			}
 		}
 	}
-	b.WriteString(t.stmts(fd.Body.List, nil))
+	body := fd.Body.List
+	if f.loopBody {
+		var loop *ast.ForStmt
+		for _, s := range fd.Body.List {
+			if fs, ok := s.(*ast.ForStmt); ok {
+				if loop != nil {
+					die("%s (%s): more than one top-level loop", f.coq, f.fn)
+				}
+				loop = fs
+				continue
+			}
+			if !t.skipped(s) {
+				die("%s (%s): statement outside the loop is not in the allow-list: %q", f.coq, f.fn, src(s))
+			}
+		}
+		if loop == nil || loop.Init == nil || loop.Cond == nil || loop.Post == nil ||
+			src(loop.Init) != "i := 0" || src(loop.Cond) != "i < len(x)" || src(loop.Post) != "i++" {
+			die("%s (%s): expected the loop \"for i := 0; i < len(x); i++\"", f.coq, f.fn)
+		}
+		body = loop.Body.List
+	}
+	b.WriteString(t.stmts(body, nil))
 	b.WriteString(".\n")
 	for i, c := range t.cutSrc {
 		fmt.Fprintf(&b, "(* %s cut %d: %s *)\n", f.coq, i, strings.ReplaceAll(strings.ReplaceAll(strings.ReplaceAll(c, "\n", " "), "*)", "* )"), "(*", "( *"))
+	}
+	if f.loopBody {
+		var tails []string
+		for i := range t.cutSrc {
+			tails = append(tails, "\""+strings.ReplaceAll(t.cutTail[i], "\"", "\"\"")+"\"%string")
+		}
+		fmt.Fprintf(&b, "(* the statements from each cut point to the end of its block, as text *)\nDefinition %s_tails : list String.string := [%s].\n", f.coq, strings.Join(tails, "; "))
 	}
 	b.WriteString("\n")
 	return b.String()
@@ -985,6 +1039,20 @@ func main() {
 				"dest.ulen()": "dulen1"},
 			inits: map[string]string{"dest": ""},
 			zvars: []string{}, bvars: []string{"looped", "ok"}},
+		{coq: "g_canPushNester", fn: "stack.canPushNester", mode: "Z", ret: "bool",
+			params:  [][2]string{{"nnest", "bool"}, {"isstack", "bool"}},
+			exprMap: map[string]string{"r.positive(nnest)": "nnest", "isStack": "isstack"},
+			inits:   map[string]string{"x": ""},
+			skip:    []string{"_, isStack := stackTypeAliasConverter(x)"}},
+		{coq: "g_genericAppend_body", fn: "stack.genericAppend", mode: "Z", ret: "tres", loopBody: true,
+			params:  [][2]string{{"canpush", "bool"}, {"full", "bool"}},
+			exprMap: map[string]string{"r.canPushNester(x[i])": "canpush", "r.isFull()": "full"},
+			skip:    []string{"var pct int", "pct++"}},
+		{coq: "g_methodAppend_body", fn: "stack.methodAppend", mode: "Z", ret: "tres", loopBody: true,
+			params:  [][2]string{{"full", "bool"}, {"rejected", "bool"}},
+			exprMap: map[string]string{"r.isFull()": "full", "err != nil": "rejected"},
+			inits:   map[string]string{"meth": ""},
+			skip:    []string{"var pct int", "var err error", "err = meth(x[i])", "pct++", "return r"}},
 		{coq: "g_pop", fn: "stack.pop", mode: "Z", ret: "tres",
 			params:  [][2]string{{"ulen", "Z"}, {"fifo", "bool"}, {"len", "Z"}},
 			exprMap: map[string]string{"r.ulen()": "ulen", "r.isFIFO()": "fifo", "len(*r)": "len"},
